@@ -21,7 +21,7 @@ func pt(addr unsafe.Pointer, write bool) {
 			vsched.TouchR(o, vsched.KAtomic)
 		}
 	}}
-	vsched.DoPoint(p.SetPC(vsched.CallerPC(2)))
+	vsched.DoPoint(p.SetPC(vsched.CallerPC(3)))
 }
 
 func AddInt32(a *int32, d int32) int32       { pt(unsafe.Pointer(a), true); return atomic.AddInt32(a, d) }
